@@ -256,7 +256,17 @@ def analyse(ck):
     from .pb import Ob
     ob = Ob()
     prog = ck.prog
-    impl = prog.one(r"^" + CB + r"::commit_staging_dir_impl$", CB)
+    from . import inline, e2
+
+    def expanded(b):
+        """private helpers this module does not name are part of the function they were extracted from (rules/inline.py)"""
+        nb, done = inline.expand(prog, b, e2.private_helper(b, e2.module_anchors(__file__)))
+        for p_ in done:
+            for x in prog.by_path.get(p_.split(" ")[0], []):
+                ck.saw(x)
+        return nb
+
+    impl = expanded(prog.one(r"^" + CB + r"::commit_staging_dir_impl$", CB))
     ck.saw(impl)
     wrap = prog.one(r"^" + CB + r"::commit_staging_dir$", CB)
     ck.saw(wrap)
@@ -295,7 +305,7 @@ def analyse(ck):
     summary = [(st, ret) for st, ret in m.returns]
 
     # ---------------- generate_all_circuit_binaries
-    gen = prog.one(r"^" + CB + r"::generate_all_circuit_binaries$", CB)
+    gen = expanded(prog.one(r"^" + CB + r"::generate_all_circuit_binaries$", CB))
     ck.saw(gen)
 
     def classify_gen(mm, bb, t, st):
